@@ -163,6 +163,15 @@ func genFmt(r *rng, tier string) interface{} {
 		in.Meta.Messages = []string{"multi\nline " + genText(r, 4, 10), "x\x1b[31mred\x1b[0m", "tab\there"}
 	}
 	in.Meta.Nospace = pick(r, []string{"", "", "", "/", "/=", "*", ":", "a", "/ ", "é"})
+	if r.chance(30) && len(in.Values) > 0 {
+		// correlate with the candidates: the last character of some value (any repertoire)
+		if v := []rune(pick(r, in.Values).Value); len(v) > 0 && v[len(v)-1] != '\n' && v[len(v)-1] != '\r' && v[len(v)-1] != '\t' {
+			in.Meta.Nospace = string(v[len(v)-1])
+			if r.chance(30) {
+				in.Meta.Nospace += "/"
+			}
+		}
+	}
 	if r.chance(20) {
 		in.Meta.Usage = genText(r, 10, 15)
 	}
